@@ -13,7 +13,13 @@ fi
 # regenerate constant tables from /repo (fail-closed translator)
 python3 ../harness/translate_tables.py "${VERIF_REPO:-/repo}" gen/Tables.v
 coq_makefile -f _CoqProject -o Makefile >/dev/null
-timeout 3000 make -j"${VERIF_JOBS:-12}" 2>&1 | grep -v "^COQDEP\|^COQC\|^make" || true
+set +e
+timeout 3000 make -j"${VERIF_JOBS:-12}" > /tmp/verif_make_$$.log 2>&1
+mrc=$?
+set -e
+grep -v "^COQDEP\|^COQC\|^make" /tmp/verif_make_$$.log || true
+rm -f /tmp/verif_make_$$.log
+[ $mrc = 0 ] || { echo "BUILD-FAILED make (exit $mrc)"; exit 2; }
 # every .v of the project must have produced a .vo
 missing=0
 for f in $(grep '\.v$' _CoqProject); do [ -f "${f}o" ] || { echo "BUILD-FAILED $f"; missing=1; }; done
